@@ -83,6 +83,11 @@ var hostileSeeds = []string{
 	`{"type":"a/b","key":"c","value":{"id":"c"},"headers":{"operation":"update","txid":"t"}}`,
 	`{"type":"loose","key":"z","value":{"anything":[1,2,3]},"headers":{"operation":"insert"}}`,
 	`{"type":"ghost","key":"1","value":{},"headers":{"operation":"insert"}}`,
+	// changes that carry an old_value, decodable or not (it is never stored)
+	`{"type":"user","key":"1","value":{"id":"1","name":"new"},"old_value":"str","headers":{"operation":"update"}}`,
+	`{"type":"user","key":"2","old_value":[1],"headers":{"operation":"delete"}}`,
+	`{"type":"user","key":"3","value":{"id":"3","name":"ins"},"old_value":{"id":5},"headers":{"operation":"insert"}}`,
+	`{"type":"a/b","key":"c","value":{"id":"c","name":"upd"},"old_value":{"id":"c","name":"seed"},"headers":{"operation":"update"}}`,
 	// objects that leave fields out
 	`{"key":"1"}`,
 	`{"key":"2","headers":{}}`,
